@@ -120,6 +120,41 @@ def sparsity_container(rows, form):
     raise ValueError(form)
 
 
+class DuckCoo:
+    """Duck-typed COO container of a matrix: stores only the non-zero entries; offers tocoo() / toarray() as scipy's matrices do."""
+
+    def __init__(self, A):
+        A = np.asarray(A, dtype=float)
+        self.shape = A.shape
+        nz = [(r, c) for r in range(A.shape[0]) for c in range(A.shape[1]) if A[r, c] != 0.0]
+        self.row = np.array([r for r, _ in nz], dtype=np.int64)
+        self.col = np.array([c for _, c in nz], dtype=np.int64)
+        self.data = np.array([A[r, c] for r, c in nz], dtype=float)
+
+    def sum_duplicates(self):
+        pass
+
+    def tocoo(self):
+        return self
+
+    def toarray(self):
+        A = np.zeros(self.shape)
+        for r, c, v in zip(self.row, self.col, self.data):
+            A[r, c] = v
+        return A
+
+
+class DuckToArray:
+    """The smallest container the binding accepts: only toarray()."""
+
+    def __init__(self, A):
+        self._coo = DuckCoo(A)
+        self.shape = self._coo.shape
+
+    def toarray(self):
+        return self._coo.toarray()
+
+
 class Recorder:
     def __init__(self):
         self.calls = 0
@@ -130,6 +165,8 @@ class Recorder:
         self.jac_args = set()
         self.log = None          # list of (t, [y]) when group observation is wanted
         self.y_types = set()
+        self.jac_patterns = set()   # stored patterns of the matrices a callable jac returned in a sparse container
+        self.jac_container = ""
 
 
 def make_problem(c, rec):
@@ -169,6 +206,11 @@ def make_problem(c, rec):
             return [p[0] * y[0] + p[1] * t]
         if kind == "vdp":
             return [y[1], p[0] * ((1.0 - y[0] * y[0]) * y[1]) - y[0]]
+        if kind == "switch":
+            sk = (1.0 if y[2] > 0.5 else 0.0) * p[0]
+            return [(-200.0 * y[0] + sk * y[1]) + 1.0,
+                    -0.5 * y[1] - sk * y[0],
+                    -1.0 * y[2]]
         if kind == "lin":
             out = []
             for r in range(n):
@@ -193,6 +235,13 @@ def make_problem(c, rec):
             J[0][1] = 1.0
             J[1][0] = p[0] * (-2.0 * y[0] * y[1]) - 1.0
             J[1][1] = p[0] * (1.0 - y[0] * y[0])
+        elif kind == "switch":
+            sk = (1.0 if y[2] > 0.5 else 0.0) * p[0]
+            J[0][0] = -200.0
+            J[0][1] = sk
+            J[1][0] = 0.0 - sk
+            J[1][1] = -0.5
+            J[2][2] = -1.0
         elif kind == "lin":
             for r in range(n):
                 for cc in range(n):
@@ -215,7 +264,7 @@ def make_problem(c, rec):
         def jacf(t, y, *args):
             rec.jcalls += 1
             rec.jac_args.add(tuple(tok(a) for a in args))
-            return deliver_matrix(jac_core(float(t), [float(v) for v in y], [float(a) for a in args]), jac_ret)
+            return deliver_jac_return(jac_core(float(t), [float(v) for v in y], [float(a) for a in args]), jac_ret, rec)
     else:
         def fun(t, y):
             rec.calls += 1
@@ -227,7 +276,7 @@ def make_problem(c, rec):
 
         def jacf(t, y):
             rec.jcalls += 1
-            return deliver_matrix(jac_core(float(t), [float(v) for v in y], P), jac_ret)
+            return deliver_jac_return(jac_core(float(t), [float(v) for v in y], P), jac_ret, rec)
 
     events = []
     for e in c["events"]:
@@ -298,6 +347,33 @@ def deliver_matrix(J, form):
         return np.asfortranarray(np.array([[int(v) for v in row] for row in J], dtype=np.int64))
     if form == "int32":
         return np.array([[int(v) for v in row] for row in J], dtype=np.int32)
+    raise ValueError(form)
+
+
+def deliver_jac_return(J, form, rec):
+    """What the callable jac returns: a numpy delivery form, or a sparse container storing only the non-zero entries of J
+    (so the stored pattern follows the values of this call).  The stored patterns seen are recorded."""
+    if not (form.startswith("sp_") or form.startswith("duck_")):
+        return deliver_matrix(J, form)
+    A = np.array(J, dtype=float)
+    rec.jac_patterns.add(tuple((r, c) for r in range(A.shape[0]) for c in range(A.shape[1]) if A[r, c] != 0.0))
+    if form.startswith("sp_") and _sp is None:     # scipy missing: the duck-typed container with the same protocol
+        form = "duck_coo"
+    rec.jac_container = form
+    if form == "sp_csc":
+        return _sp.csc_matrix(A)                    # built from a dense array: explicit zeros are not stored
+    if form == "sp_csr":
+        return _sp.csr_matrix(A)
+    if form == "sp_coo":
+        return _sp.coo_matrix(A)
+    if form == "sp_csc_ez":                         # full pattern first, zeros removed afterwards
+        M = _sp.csc_matrix((A.T.ravel(), np.tile(np.arange(A.shape[0]), A.shape[1]), np.arange(0, A.size + 1, A.shape[0])), shape=A.shape)
+        M.eliminate_zeros()
+        return M
+    if form == "duck_coo":
+        return DuckCoo(A)
+    if form == "duck_toarray":
+        return DuckToArray(A)
     raise ValueError(form)
 
 
@@ -491,6 +567,25 @@ def run_case(c):
             except BaseException as e:
                 sol_nd = {"raised": type(e).__name__, "shape": [], "v": []}
     out["sol"] = sol
+    # sol AT every reported time (accepted step ends when there is no t_eval): scalar calls and one array call
+    sol_steps = []
+    sol_steps_nd = {"raised": "", "shape": [], "v": []}
+    if r.sol is not None and c["dense"] and c.get("probe_steps"):
+        ts = [float(x) for x in np.asarray(r.t)]
+        for p in ts:
+            try:
+                sol_steps.append({"t": tok(p), "raised": "", **arr_record(r.sol(p))})
+            except BaseException as e:
+                sol_steps.append({"t": tok(p), "raised": type(e).__name__, "shape": [], "v": []})
+        if ts:
+            try:
+                sol_steps_nd = {"raised": "", **arr_record(r.sol(np.asarray(r.t)))}
+            except BaseException as e:
+                sol_steps_nd = {"raised": type(e).__name__, "shape": [], "v": []}
+    out["sol_steps"] = sol_steps
+    out["sol_steps_nd"] = sol_steps_nd
+    out["jac_patterns"] = len(rec.jac_patterns)
+    out["jac_container"] = rec.jac_container
     sol_empty = {"raised": "", "shape": [], "v": []}
     if r.sol is not None and c.get("probe_empty"):
         try:
